@@ -31,7 +31,7 @@ PID = 'C03'
 def designs_for(ctx):
   quick = ctx.tier == 'quick'
   return (eng.directed_designs(ctx) + sv.stdlib_designs(ctx.tier) + sv.testcase_designs() +
-          eng.gen_designs(ctx, 110 if quick else 800))
+          eng.gen_designs(ctx, 90 if quick else 800))
 
 def summarize(ctx, results):
   feats = collections.Counter()
